@@ -333,6 +333,8 @@ def chain_cases(rng, tier):
             rng.shuffle(own)
             names_so_far += new
             specs.append(rand_layer(rng, own, p_no=0.3 if d else 0.1, p_err=0.03))
+        if rng.random() < 0.3:
+            specs[0]["meta"] = True      # metaclass under which all classes compare ==
         try:
             S._WORLD[0] = S.World({})
             _classes, fls = S.build_chain(specs)
